@@ -122,7 +122,21 @@ func GenGoFile(rng *rand.Rand, o SrcOpts) (src string, annotated int) {
 		sb.WriteString("type DupFirst struct {\n" + line + "}\n\ntype DupSecond struct {\n" + line + strings.Replace(line, "\tId ", "\tId2 ", 1) + "}\n\n")
 		annotated += 3
 	}
-	return sb.String(), annotated
+	// the last bytes of the file: generated and formatted files end in one newline, hand-edited ones in anything
+	out := sb.String()
+	switch rng.Intn(12) {
+	case 0, 1:
+		out = strings.TrimRight(out, "\n") // no final newline
+	case 2:
+		out = strings.TrimRight(out, "\n") + "\n"
+	case 3:
+		out = strings.TrimRight(out, "\n") + "\n\t \n   "
+	case 4:
+		out = strings.TrimRight(out, "\n") + "\n// EOF 结束" // a comment as the last line, no newline after it
+	case 5:
+		out = strings.TrimRight(out, "\n") + "\n\n\n\n"
+	}
+	return out, annotated
 }
 
 func otherDecl(rng *rand.Rand, n int) string {
